@@ -317,6 +317,10 @@ def run(ctx, replay=None):
             product("big-trees", env["REQOUT"], trees=big_instance())
             pairs()
             product("main-prefixnames", env["REQOUT"], treemod=8, treerem=(ctx.seed + 1) % 8, conc="prefixnames")
+            # names with pattern metacharacters next to a sibling the pattern matches; names with a backslash
+            product("main-globby", env["REQOUT"], treemod=16, treerem=(ctx.seed + 2) % 16, conc="globby")
+            product("main-globby2", env["REQOUT"], treemod=16, treerem=(ctx.seed + 5) % 16, conc="globby2")
+            product("main-backslash", env["REQOUT"], treemod=16, treerem=(ctx.seed + 9) % 16, conc="backslash")
             hists(60, 16, ctx.seed)
         else:
             product("main", env["REQOUT"])
@@ -331,6 +335,9 @@ def run(ctx, replay=None):
             pairs()
             pairs("special")
             product("main-prefixnames", env["REQOUT"], treemod=2, treerem=ctx.seed % 2, conc="prefixnames")
+            product("main-globby", env["REQOUT"], treemod=4, treerem=(ctx.seed + 2) % 4, conc="globby")
+            product("main-globby2", env["REQOUT"], treemod=4, treerem=(ctx.seed + 1) % 4, conc="globby2")
+            product("main-backslash", env["REQOUT"], treemod=4, treerem=(ctx.seed + 3) % 4, conc="backslash")
             for i in range(4):
                 hists(250, 24, ctx.seed * 10 + i, conc=["id", "space", "special", "dots"][i])
     elif prop == "C02":
